@@ -56,6 +56,9 @@ func checkC03(c *Ctx) {
 		upk := p.Func(ip, "PublicKey", "UnpackMLKEM")
 		c.guard(p, "C03.keycheck", "encapsulation key accepted only if it re-encodes to the same bytes", upk, GuardSpec{Assumes: []Assume{calleeAssume(latFalse, -1, "bytes.Equal")}})
 		c.callArgRule(p, "C03.keycheck", "the comparison is between the input bytes and the re-packed vector", upk, "bytes.Equal", "", map[int]string{0: `param#1\[:.*\]`, 1: `local:\[\d+\]byte`})
+		// the re-encoding test compares the input with the encoding of the *reduced* vector: without the
+		// normalisation the re-packed bytes are the input bytes and the check passes for every key
+		c.reachCountRule(p, "C03.keycheck", "the decoded vector is normalised (coefficients reduced below q) before it is re-packed for the comparison", upk, map[string]int{"(*" + ip + ".Vec).Normalize": 1})
 		mpk := p.Func(ml, "PublicKey", "Unpack")
 		c.guard(p, "C03.keycheck", "public key parsing succeeds only through the modulus check", mpk, GuardSpec{Assumes: []Assume{calleeAssume(latNonNil, -1, "(*"+pp+".PublicKey).UnpackMLKEM")}})
 		c.lenReject(p, "C03.keycheck", mpk, "buf", true)
